@@ -4,7 +4,7 @@ use std::sync::atomic::Ordering;
 
 use super::super::{add_socket, co_io_result, IoData};
 #[cfg(feature = "io_cancel")]
-use crate::coroutine_impl::co_cancel_data;
+use crate::coroutine_impl::co_get_handle;
 use crate::coroutine_impl::{is_coroutine, CoroutineImpl, EventSource};
 use crate::io::AsIoData;
 use crate::net::{TcpListener, TcpStream};
@@ -61,8 +61,11 @@ impl<'a> TcpListenerAccept<'a> {
 impl EventSource for TcpListenerAccept<'_> {
     fn subscribe(&mut self, co: CoroutineImpl) {
         #[cfg(feature = "io_cancel")]
-        let cancel = co_cancel_data(&co);
-        let io_data = self.io_data;
+        // an owned handle: the cancel data must stay alive after the coroutine has been published below
+        let handle = co_get_handle(&co);
+        // an owned reference to the event data: once the coroutine is published another thread may resume it,
+        // `self` (on its stack) and the socket object may be gone before this function returns
+        let io_data = (**self.io_data).clone();
         // if there is no timer we don't need to call add_io_timer
         io_data.co.store(co);
 
@@ -75,7 +78,8 @@ impl EventSource for TcpListenerAccept<'_> {
         #[cfg(feature = "io_cancel")]
         {
             // register the cancel io data
-            cancel.set_io((*io_data).clone());
+            let cancel = handle.get_cancel();
+            cancel.set_io(io_data.clone());
             // re-check the cancel status
             if cancel.is_canceled() {
                 unsafe { cancel.cancel() };
